@@ -44,11 +44,56 @@ def intn_selftest():
     return len(vec), r
 
 
+FLOAT_LITS = ["0.1", "0.2", "0.3", "1.1", "3.3", "2.675", "16777217.0", "0.30000000000000004", "123456789.125", "1.0000001", "9007199254740993.0",
+              "0.5", "4.0", "100.25", "0.000001", "33554433.0", "1.7976931348623157", "5.960464477539063"]
+
+
+def float_literals(rep, tier):
+    """A float literal denotes the double (float32 for f32) nearest to its decimal text, whatever its suffix and position.
+    TLA+ has no floats, so this is checked on the text: the literal the emitted Go carries must round to the same value."""
+    import re, struct
+    f32 = lambda x: struct.unpack("f", struct.pack("f", x))[0]
+    reqs, meta = [], []
+    d = workdir("c10-floatlit")
+    forms = [("f64-suffix", "{l}f64", "float64", ""), ("unsuffixed", "{l}", "float64", ""), ("annotated", "{l}", "float64", ": float64"),
+             ("f32-suffix", "{l}f32", "float32", ""), ("f32-suffix-annotated", "{l}f32", "float32", ": float32")]
+    for l in FLOAT_LITS:
+        for fname, spell, ty, ann in forms:
+            if ty == "float32" and float(l) > 3e38:
+                continue
+            text = (f"fn pass(x: {ty}) -> {ty} {{ x }}\nfn main() {{\n    let a{ann} = {spell.format(l=l)};\n    let b = pass({spell.format(l=l) if 'suffix' in fname else l});\n"
+                    f"    let _ = string_println({ty}_to_string(a));\n    let _ = string_println({ty}_to_string(b));\n    ()\n}}\n")
+            reqs.append({"id": len(reqs), "text": text, "dir": d})
+            meta.append((l, fname, ty, text))
+    res = gv_parallel("compile", reqs)
+    checked = 0
+    for (l, fname, ty, text), r in zip(meta, res):
+        ident = f"c10:float-literal:{fname}:{l}"
+        if r["verdict"] != "ok":
+            rep.violation(ident + ":rejected", {"source": text, "diagnostics": [x["msg"] for x in r.get("diags", [])][:3]})
+            continue
+        m = re.search(r"var a__\d+ float(?:32|64) = (?:float(?:32|64)\()?(-?[0-9.eE+-]+)\)?", r["go"])
+        m2 = re.search(r"pass\((?:float(?:32|64)\()?(-?[0-9.eE+-]+)\)?\)", r["go"])
+        if not m or not m2:
+            rep.violation(ident + ":literal-not-found-in-go", {"source": text, "go": r["go"][-600:]})
+            continue
+        want = f32(float(l)) if ty == "float32" else float(l)
+        for where, g in (("let", m.group(1)), ("argument", m2.group(1))):
+            got = f32(float(g)) if ty == "float32" else float(g)
+            checked += 1
+            if got != want:
+                rep.violation(ident + ":" + where, {"source": text, "source_literal": l, "go_literal": g, "denotes": repr(got), "should_denote": repr(want)})
+    rep.coverage["float_literal_denotations_checked"] = checked
+    if checked < 100:
+        raise ToolError("vacuity: float literal denotations")
+
+
 def run(tier, rep):
     build_harness()
     nvec, r = intn_selftest()
     progs = fam_c10.programs(tier)
     cases, counts = famcheck.run_families("C10", rep, progs, "c10", maxsteps=60000, goinvalid_is_violation=True)
+    float_literals(rep, tier)
     rep.coverage["states"] += r.distinct
     rep.coverage["transitions"] += r.generated
     rep.coverage["intn_reference_vectors"] = nvec
